@@ -341,6 +341,22 @@ def check(ctx, want="C12"):
             j = make_job(ctx, proto, wn, ctx.seed * 1000 + 300 + kk, 60 if thorough else 32)
             j["retire"] = rn
             jobs.append(j)
+    # messages whose JSON encoding is exactly 1024, 2048, ... 32768 octets long (and a few octets around): the encode buffer and
+    # the copy that is queued meet their own boundaries (one variable-length string per record: the size follows its length)
+    if not mirror_only:
+        u16 = lambda n: [(n >> 8) & 255, n & 255]
+        exp = [10, 0, 0, 1]
+        tpl = [0, 10] + u16(16 + 12) + [0] * 12 + u16(2) + u16(12) + u16(400) + u16(1) + u16(82) + u16(65535)
+        sweep = []
+        for size in (1024, 2048, 4096, 8192, 16384, 32768):
+            for n in range(size - 140, size - 127):
+                rec = [255] + u16(n) + [97 + n % 26] * n
+                sweep.append({"exp": exp, "buf": [0, 10] + u16((16 + 4 + len(rec)) & 0xffff) + [0] * 12 + u16(400) + u16(4 + len(rec)) + rec})
+        for wn, lazy in ((1, 8), (2, 3)):
+            data = list(sweep)
+            ctx.rng.shuffle(data)
+            jobs.append({"proto": "ipfix", "workers": wn, "seed": ctx.seed * 1000 + 400 + wn, "udpsize": 40000, "templates": [{"exp": exp, "buf": tpl}],
+                         "data": data, "lazy": lazy, "poison": []})
     # mirroring enabled (ipfix and sflow have it): the copies taken by the mirror workers, and the mirror queue full
     for proto in ("ipfix", "sflow"):
         for k, mode in enumerate(["on", "full"] * (3 if thorough else 1)):
